@@ -8,6 +8,7 @@
   (instantiated with the per-logic weights of Ptx/Tab/Measure.lean).
 -/
 import Ptx.Proofs.Canon
+import Ptx.Proofs.BackQ
 namespace Ptx
 namespace Canon
 variable {L : LogicData} {b : Branch}
@@ -49,15 +50,31 @@ theorem map_den_const (ps : List Param) (h : ps.all (fun | .const _ _ => true | 
       exact congrArg _ (ih h.2)
     | var i s => simp at h
 
-theorem eval_pred (w : Nat) (p : Pred) (ps : List Param) (hg : (Sent.pred p ps).ground L = true) :
+theorem map_pi_den_const (ps : List Param) (h : ps.all (fun | .const _ _ => true | .var _ _ => false) = true)
+    (hc : ∀ i s, Param.const i s ∈ ps → (i, s) ∈ b.consts) :
+    ((ps.map env.den).map (pi b)).map (fun (d : Nat × Nat) => Param.const d.1 d.2) = ps := by
+  induction ps with
+  | nil => rfl
+  | cons p ps ih =>
+    simp only [List.all_cons, Bool.and_eq_true] at h
+    cases p with
+    | const i s =>
+      simp only [List.map_cons, Env.den, env]
+      rw [pi_of_mem (hc i s List.mem_cons_self)]
+      exact congrArg _ (ih h.2 (fun i' s' hm => hc i' s' (List.mem_cons_of_mem _ hm)))
+    | var i s => simp at h
+
+/-- a closed non-system predication whose constants are on the branch evaluates to its read value -/
+theorem eval_pred (w : Nat) (p : Pred) (ps : List Param)
+    (h1 : p ≠ Pred.identity) (h2 : p ≠ Pred.existence)
+    (h3 : ps.all (fun | .const _ _ => true | .var _ _ => false) = true)
+    (hc : ∀ i s, Param.const i s ∈ ps → (i, s) ∈ b.consts) :
     eval L (struct L b) env w (.pred p ps) = readVal L b (.pred p ps) w := by
-  simp only [Sent.ground, Bool.and_eq_true, bne_iff_ne, ne_eq] at hg
-  obtain ⟨⟨h1, h2⟩, h3⟩ := hg
   show predVal L b w p (ps.map env.den) = _
   unfold predVal
   rw [if_neg h1, if_neg h2]
   congr 2
-  exact map_den_const ps h3
+  exact map_pi_den_const ps h3 hc
 
 /-! ### literals -/
 
@@ -200,10 +217,20 @@ theorem rule_of_allKeys (hm : L.missingRules = []) {k : RuleKey} (hk : k ∈ L.a
   | none => simp [h] at this
   | some r => exact ⟨r, rfl⟩
 
+theorem fo_nil_params {ps : List Param}
+    (h : ps.all (fun | .const _ _ => true | .var i s => ([] : List (Nat × Nat)).contains (i, s)) = true) :
+    ps.all (fun | .const _ _ => true | .var _ _ => false) = true := by
+  rw [List.all_eq_true] at h ⊢
+  intro p hp
+  have := h p hp
+  cases p with
+  | const i s => rfl
+  | var i s => simp at this
+
 /-- a ground sentence node for which the table has no rule is a literal: a sentence letter, a
     predication, a sentence the logic leaves uninterpreted — or the negation of one -/
 theorem literal_of_no_rule (hm : L.missingRules = []) {s : Sent} {d : Option Bool} (hd : d ∈ L.markers)
-    (hg : s.ground L = true) (hnr : L.ruleFor s d = none) (w : Nat) :
+    (hg : s.fo L [] = true) (hcs : ∀ c ∈ s.consts, c ∈ b.consts) (hnr : L.ruleFor s d = none) (w : Nat) :
     ∃ base, (s = base ∨ s = base.neg) ∧ base.base = base ∧
       eval L (struct L b) env w base = readVal L b base w := by
   -- a key of an interpreted shape always has a rule
@@ -214,11 +241,17 @@ theorem literal_of_no_rule (hm : L.missingRules = []) {s : Sent} {d : Option Boo
     simp [LogicData.ruleFor, hdec, hr, hl] at hnr
   cases s with
   | atom i j => exact ⟨_, Or.inl rfl, rfl, rfl⟩
-  | pred p ps => exact ⟨_, Or.inl rfl, rfl, eval_pred w p ps hg⟩
+  | pred p ps =>
+    simp only [Sent.fo, Bool.and_eq_true, bne_iff_ne, ne_eq] at hg
+    refine ⟨_, Or.inl rfl, rfl, eval_pred w p ps hg.1.1 hg.1.2 (fo_nil_params hg.2) ?_⟩
+    intro i s hm'
+    exact hcs (i, s) (by simp only [Sent.consts, List.mem_filterMap]; exact ⟨_, hm', rfl⟩)
   | quant q vi vs body =>
-    simp only [Sent.ground, Bool.not_eq_true'] at hg
-    refine ⟨_, Or.inl rfl, rfl, ?_⟩
-    simp [eval, hg]
+    by_cases hq : L.quantified = true
+    · exact (contra (sh := .quant q) (ng := false) (whole := .quant q vi vs body) (l0 := body) rfl rfl
+        (key_mem_allKeys hd hq (by simp))).elim
+    · refine ⟨_, Or.inl rfl, rfl, ?_⟩
+      simp [eval, hq]
   | op2 o a c =>
     exact (contra (sh := .op2 o) (ng := false) (whole := .op2 o a c) (l0 := a) rfl rfl
       (key_mem_allKeys hd trivial (by simp))).elim
@@ -240,14 +273,20 @@ theorem literal_of_no_rule (hm : L.missingRules = []) {s : Sent} {d : Option Boo
       · refine ⟨_, Or.inl rfl, rfl, ?_⟩
         simp [eval, Op1.isModal, hmd]
     | neg =>
-      have hga : a.ground L = true := by simpa [Sent.ground, Op1.isModal] using hg
+      have hga : a.fo L [] = true := by simpa [Sent.fo, Op1.isModal] using hg
       cases a with
       | atom i j => exact ⟨_, Or.inr rfl, rfl, rfl⟩
-      | pred p ps => exact ⟨_, Or.inr rfl, rfl, eval_pred w p ps hga⟩
+      | pred p ps =>
+        simp only [Sent.fo, Bool.and_eq_true, bne_iff_ne, ne_eq] at hga
+        refine ⟨_, Or.inr rfl, rfl, eval_pred w p ps hga.1.1 hga.1.2 (fo_nil_params hga.2) ?_⟩
+        intro i s hm'
+        exact hcs (i, s) (by simp only [Sent.consts, List.mem_filterMap]; exact ⟨_, hm', rfl⟩)
       | quant q vi vs body =>
-        simp only [Sent.ground, Bool.not_eq_true'] at hga
-        refine ⟨_, Or.inr rfl, rfl, ?_⟩
-        simp [eval, hga]
+        by_cases hq : L.quantified = true
+        · exact (contra (sh := .quant q) (ng := true) (whole := .quant q vi vs body) (l0 := body) rfl rfl
+            (key_mem_allKeys hd hq (by simp))).elim
+        · refine ⟨_, Or.inr rfl, rfl, ?_⟩
+          simp [eval, hq]
       | op2 o a1 a2 =>
         exact (contra (sh := .op2 o) (ng := true) (whole := .op2 o a1 a2) (l0 := a1) rfl rfl
           (key_mem_allKeys hd trivial (by simp))).elim
@@ -289,13 +328,30 @@ theorem ruleFor_some {s : Sent} {d : Option Bool} {r : Rule} {whole l0 : Sent}
       exact ⟨sh, ng, hdec, hr, hl⟩
     · cases h
 
-/-- the measure hypothesis: every sentence node a non-quantifier rule adds weighs less than its
-    target (what `weight_decreases` of Ptx/Proofs/Measure.lean provides for the per-logic weights) -/
-def MeasureOK (L : LogicData) (μ : Sent → Option Bool → Nat) : Prop :=
-  ∀ {s : Sent} {d : Option Bool} {r : Rule} {whole l0 : Sent}, L.ruleFor s d = some (r, whole, l0) →
-    (∀ q, Shape.of whole ≠ some (.quant q)) →
+/-- the measure hypothesis on the compounds satisfying `P`: every sentence node their rule adds weighs
+    less than its target (what `weight_decreases(_frag)` of Ptx/Proofs/Measure.lean provides) -/
+def MeasureOKOn (L : LogicData) (μ : Sent → Option Bool → Nat) (P : Sent → Prop) : Prop :=
+  ∀ {s : Sent} {d : Option Bool} {r : Rule} {whole l0 : Sent}, L.ruleFor s d = some (r, whole, l0) → P whole →
     ∀ (w : Option Nat) (c : Option (Nat × Nat)) (wo : Option Nat) (gs : List (List Node)),
       instGroups whole l0 w c wo r = some gs → ∀ g ∈ gs, ∀ s' d' w', Node.sent s' d' w' ∈ g → μ s' d' < μ s d
+
+/-- … for the non-quantifier rows -/
+def MeasureOK (L : LogicData) (μ : Sent → Option Bool → Nat) : Prop :=
+  MeasureOKOn L μ (fun whole => ∀ q, Shape.of whole ≠ some (.quant q))
+
+theorem quantOK_of_fo {s : Sent} {bound : List (Nat × Nat)} (h : s.fo L bound = true)
+    (hq : ∀ q vi vs body, s = .quant q vi vs body → L.quantified = true) : s.quantOK L = true := by
+  cases s with
+  | quant q vi vs body =>
+    have hqq := hq q vi vs body rfl
+    simp only [Sent.fo, hqq, Bool.not_true, Bool.false_or, Bool.and_eq_true] at h
+    have h2 := h.1.2
+    simp only [Sent.quantOK, h.1.1, Bool.true_and]
+    rw [hqq]; exact h2
+  | atom _ _ => rfl
+  | pred _ _ => rfl
+  | op1 _ _ => rfl
+  | op2 _ _ _ => rfl
 
 theorem groupsDone_iff {gs? : Option (List (List Node))} (h : groupsDone b gs? = true) :
     ∃ gs, gs? = some gs ∧ ∃ g ∈ gs, b.hasAll g = true := by
@@ -345,9 +401,40 @@ theorem nodeMissing_eachWorld {s whole l0 : Sent} {d : Option Bool} {r : Rule} {
     simp at h2
     exact h2 (by simpa using hser)
 
-theorem hintikka (μ : Sent → Option Bool → Nat) (hμ : MeasureOK L μ) (hcore : L.hintikkaCoreB = true)
+theorem nodeMissing_newConst {s whole l0 : Sent} {d : Option Bool} {r : Rule} {w : Option Nat}
+    (hrf : L.ruleFor s d = some (r, whole, l0)) (hq : whole.quantOK L = true) (hw : r.witness = .newConst)
+    (h : L.nodeMissing b s d w = []) :
+    ∃ c ∈ b.constList, groupsDone b (instGroups whole l0 w (some c) none r) = true := by
+  unfold LogicData.nodeMissing at h
+  simp only [hrf, hq, Bool.not_true, Bool.false_eq_true, ↓reduceIte, hw] at h
+  cases hd : b.constList.any (fun c => groupsDone b (instGroups whole l0 w (some c) none r)) with
+  | true =>
+    obtain ⟨c, hc, hc'⟩ := List.any_eq_true.1 hd
+    exact ⟨c, hc, hc'⟩
+  | false => simp [hd] at h
+
+theorem nodeMissing_eachConst {s whole l0 : Sent} {d : Option Bool} {r : Rule} {w : Option Nat}
+    (hrf : L.ruleFor s d = some (r, whole, l0)) (hq : whole.quantOK L = true) (hw : r.witness = .eachConst)
+    (h : L.nodeMissing b s d w = []) :
+    b.constList ≠ [] ∧ ∀ c ∈ b.constList, groupsDone b (instGroups whole l0 w (some c) none r) = true := by
+  unfold LogicData.nodeMissing at h
+  simp only [hrf, hq, Bool.not_true, Bool.false_eq_true, ↓reduceIte, hw] at h
+  cases hemp : b.constList.isEmpty with
+  | true => simp [hemp] at h
+  | false =>
+    simp only [hemp, Bool.false_eq_true, ↓reduceIte, List.map_eq_nil_iff, List.filter_eq_nil_iff] at h
+    refine ⟨by intro hn; simp [hn] at hemp, ?_⟩
+    intro c hc
+    have := h c hc
+    cases hd : groupsDone b (instGroups whole l0 w (some c) none r) with
+    | true => rfl
+    | false => simp [hd] at this
+
+theorem hintikka_gen (μ : Sent → Option Bool → Nat) (P : Sent → Prop) (hμ : MeasureOKOn L μ P)
+    (hP : ∀ s d w, Node.sent s d w ∈ b.nodes → ∀ r whole l0, L.ruleFor s d = some (r, whole, l0) → P whole)
+    (hcore : L.hintikkaCoreB = true)
     (hT : V.T ∈ L.T.vals) (hF : V.F ∈ L.T.vals)
-    (hs : L.unsaturated b = []) (hg : b.groundB L = true) :
+    (hs : L.unsaturated b = []) (hg : b.foB L = true) :
     (struct L b).Interp L ∧ ∀ n ∈ b.nodes, satNode L (struct L b) env id n := by
   simp only [LogicData.hintikkaCoreB, Bool.and_eq_true, List.isEmpty_iff, beq_iff_eq] at hcore
   obtain ⟨⟨⟨⟨⟨⟨⟨⟨⟨hTot, hinc⟩, hmiss⟩, hct⟩, hrt⟩, hbr⟩, hvoc⟩, hfc⟩, hloc⟩, hmf⟩ := hcore
@@ -355,9 +442,9 @@ theorem hintikka (μ : Sent → Option Bool → Nat) (hμ : MeasureOK L μ) (hco
   obtain ⟨hnodes, hframe⟩ := unsat_split hs
   have hM : (struct L b).Interp L := interp hcl.una hT hF hfc hframe
   refine ⟨hM, ?_⟩
-  have hgr : ∀ s d w, Node.sent s d w ∈ b.nodes → s.ground L = true ∧ d ∈ L.markers ∧ w.isSome = L.modal := by
+  have hgr : ∀ s d w, Node.sent s d w ∈ b.nodes → s.fo L [] = true ∧ d ∈ L.markers ∧ w.isSome = L.modal := by
     intro s d w hn
-    unfold Branch.groundB at hg
+    unfold Branch.foB at hg
     have := (List.all_eq_true.1 hg) _ hn
     simp only [Bool.and_eq_true, List.contains_eq_mem, decide_eq_true_eq, beq_iff_eq] at this
     exact ⟨this.1.1, this.1.2, this.2⟩
@@ -376,7 +463,8 @@ theorem hintikka (μ : Sent → Option Bool → Nat) (hμ : MeasureOK L μ) (hco
         | some w0 => simp at hwm; simp [← hwm]
       cases hrf : L.ruleFor s d with
       | none =>
-        obtain ⟨base, hsb, hbb, hev⟩ := literal_of_no_rule (b := b) hmiss hdm hgs hrf (w.getD 0)
+        obtain ⟨base, hsb, hbb, hev⟩ := literal_of_no_rule (b := b) hmiss hdm hgs
+          (consts_subset_branch hn) hrf (w.getD 0)
         exact literal_sat hct hrt hbr hn hdm hw hclo hsb hbb hev
       | some x =>
         obtain ⟨r, whole, l0⟩ := x
@@ -385,16 +473,7 @@ theorem hintikka (μ : Sent → Option Bool → Nat) (hμ : MeasureOK L μ) (hco
         have hshape := decomp_shape hdec
         have hrmem := lookup_mem (show L.rules.lookup ⟨sh, ng, d⟩ = some r from hr)
         have hvk := (List.all_eq_true.1 hvoc) _ hrmem
-        -- the shape is not a quantifier
-        have hnq : ∀ q, Shape.of whole ≠ some (.quant q) := by
-          intro q hq
-          rw [hq] at hshape
-          simp only [Option.some.injEq] at hshape
-          subst hshape
-          simp only at hvk
-          have hsw := decomp_eq hdec
-          cases whole <;> simp [Shape.of] at hq
-          cases ng <;> simp at hsw <;> subst hsw <;> simp [Sent.ground, Sent.neg, Op1.isModal, hvk] at hgs
+        have hPw : P whole := hP s d w hn r whole l0 hrf
         -- every node of a group that is on the branch is satisfied
         have group_sat : ∀ (c : Option (Nat × Nat)) (wo : Option Nat) (gs : List (List Node)),
             instGroups whole l0 w c wo r = some gs → ∀ g ∈ gs, b.hasAll g = true →
@@ -405,16 +484,65 @@ theorem hintikka (μ : Sent → Option Bool → Nat) (hμ : MeasureOK L μ) (hco
             simpa [Branch.hasNode] using this
           cases n with
           | sent s' d' w' =>
-            have hlt := hμ hrf hnq w c wo gs hgs' g hgm s' d' w' hn'
+            have hlt := hμ hrf hPw w c wo gs hgs' g hgm s' d' w' hn'
             exact ih (μ s' d') (hk ▸ hlt) s' d' w' rfl hnb
           | access a c' => exact Or.inl (by simpa [Branch.hasAccess] using hnb)
           | flag _ => trivial
           | ellipsis => trivial
+        have hfow : whole.fo L [] = true := by
+          have hsw := decomp_eq hdec
+          cases ng
+          · simp at hsw; rw [← hsw]; exact hgs
+          · simp at hsw; rw [hsw] at hgs; simpa [Sent.fo, Sent.neg, Op1.isModal] using hgs
         have hqok : whole.quantOK L = true := by
-          cases whole <;> simp [Sent.quantOK]
-          exact absurd rfl (hnq _)
+          refine quantOK_of_fo hfow ?_
+          intro q vi vs body hwq
+          subst hwq
+          rw [show Shape.of (Sent.quant q vi vs body) = some (.quant q) from rfl] at hshape
+          simp only [Option.some.injEq] at hshape
+          subst hshape
+          simpa using hvk
         cases sh with
-        | quant q => exact absurd hshape (hnq q)
+        | quant q =>
+          -- quantifier rule
+          simp only at hvk
+          have hq : L.quantified = true := hvk
+          obtain ⟨vi, vs, body, rfl⟩ : ∃ vi vs body, whole = .quant q vi vs body := by
+            cases whole <;> simp [Shape.of] at hshape
+            subst hshape; exact ⟨_, _, _, rfl⟩
+          simp only [Sent.lhs?, Option.some.injEq] at hl
+          subst hl
+          have hbody : body.noSys L = true := by
+            simp only [Sent.fo, hq, Bool.not_true, Bool.false_or, Bool.and_eq_true] at hfow
+            exact fo_noSys hfow.2
+          refine quant_rule_back hTot hM hq hdec hqok hrc env id ?_
+          unfold QuantDone
+          cases hwit : r.witness with
+          | none =>
+            obtain ⟨gs, hgs', g, hgm, hall⟩ := groupsDone_iff (nodeMissing_none hrf hqok hwit hmis)
+            exact ⟨gs, by simpa [instGroups, hwit, Sent.rhs?, Sent.qraw, Sent.qvar] using hgs', g, hgm,
+              group_sat none none gs hgs' g hgm hall⟩
+          | newConst =>
+            obtain ⟨c, _, hdone⟩ := nodeMissing_newConst hrf hqok hwit hmis
+            obtain ⟨gs, hgs', g, hgm, hall⟩ := groupsDone_iff hdone
+            exact ⟨c.1, c.2, gs, by simpa [instGroups, hwit, Sent.instC, Sent.qraw, Sent.qvar] using hgs', g, hgm,
+              group_sat (some c) none gs hgs' g hgm hall⟩
+          | eachConst =>
+            obtain ⟨hne, hall'⟩ := nodeMissing_eachConst hrf hqok hwit hmis
+            intro x
+            have hpm : pi b x ∈ b.constList := pi_mem hne x
+            obtain ⟨gs, hgs', g, hgm, hall⟩ := groupsDone_iff (hall' _ hpm)
+            refine ⟨(pi b x).1, (pi b x).2, ?_, gs, by simpa [instGroups, hwit, Sent.instC, Sent.qraw, Sent.qvar] using hgs', g, hgm,
+              group_sat (some (pi b x)) none gs hgs' g hgm hall⟩
+            exact eval_updVar_pi hbody env _ vi vs x
+          | newWorld =>
+            simp only [LogicData.ruleCompleteB, List.all_eq_true] at hrc
+            have := hrc _ (qProfile_mem (L := L) hM hTot env (id (w.getD 0)) vi vs body)
+            simp [LogicData.qRuleCompleteAt, hwit] at this
+          | eachWorld =>
+            simp only [LogicData.ruleCompleteB, List.all_eq_true] at hrc
+            have := hrc _ (qProfile_mem (L := L) hM hTot env (id (w.getD 0)) vi vs body)
+            simp [LogicData.qRuleCompleteAt, hwit] at this
         | op2 o =>
           have hwn : r.witness = .none := by
             simp only [LogicData.ruleCompleteB, Bool.and_eq_true, beq_iff_eq] at hrc
@@ -495,6 +623,85 @@ theorem hintikka (μ : Sent → Option Bool → Nat) (hμ : MeasureOK L μ) (hco
   | access a c => exact Or.inl (by simpa [Branch.hasAccess] using hn)
   | flag _ => trivial
   | ellipsis => trivial
+
+
+/-! ### the two instances: ground branches (non-quantifier weights suffice), first-order branches -/
+
+theorem ground_fo {s : Sent} : s.ground L = true → s.fo L [] = true := by
+  induction s with
+  | atom i j => intro _; rfl
+  | pred p ps =>
+    intro h
+    simp only [Sent.ground, Bool.and_eq_true] at h
+    simp only [Sent.fo, Bool.and_eq_true]
+    refine ⟨h.1, ?_⟩
+    rw [List.all_eq_true] at h ⊢
+    intro x hx
+    have := h.2 x hx
+    cases x <;> simp_all
+  | quant q vi vs body _ =>
+    intro h
+    simp only [Sent.ground, Bool.not_eq_true'] at h
+    simp [Sent.fo, h]
+  | op1 o a ih =>
+    intro h
+    simp only [Sent.ground, Bool.or_eq_true] at h
+    simp only [Sent.fo, Bool.or_eq_true]
+    rcases h with h | h
+    · exact Or.inl h
+    · exact Or.inr (ih h)
+  | op2 o a c iha ihc =>
+    intro h
+    simp only [Sent.ground, Bool.and_eq_true] at h
+    simp only [Sent.fo, Bool.and_eq_true]
+    exact ⟨iha h.1, ihc h.2⟩
+
+theorem groundB_foB (h : b.groundB L = true) : b.foB L = true := by
+  unfold Branch.groundB at h
+  unfold Branch.foB
+  rw [List.all_eq_true] at h ⊢
+  intro n hn
+  have := h n hn
+  cases n with
+  | sent s d w =>
+    simp only [Bool.and_eq_true] at this ⊢
+    exact ⟨⟨ground_fo this.1.1, this.1.2⟩, this.2⟩
+  | access a c => exact this
+  | flag _ => rfl
+  | ellipsis => rfl
+
+/-- Hintikka lemma, propositional + modal vocabulary (weights for the non-quantifier rows suffice) -/
+theorem hintikka (μ : Sent → Option Bool → Nat) (hμ : MeasureOK L μ) (hcore : L.hintikkaCoreB = true)
+    (hT : V.T ∈ L.T.vals) (hF : V.F ∈ L.T.vals)
+    (hs : L.unsaturated b = []) (hg : b.groundB L = true) :
+    (struct L b).Interp L ∧ ∀ n ∈ b.nodes, satNode L (struct L b) env id n := by
+  refine hintikka_gen μ _ hμ ?_ hcore hT hF hs (groundB_foB hg)
+  intro s d w hn r whole l0 hrf q hq
+  obtain ⟨sh, ng, hdec, hr, hl⟩ := ruleFor_some hrf
+  have hshape := decomp_shape hdec
+  rw [hq] at hshape
+  simp only [Option.some.injEq] at hshape
+  subst hshape
+  have hvoc : L.vocabOKB = true := by
+    simp only [LogicData.hintikkaCoreB, Bool.and_eq_true] at hcore
+    exact hcore.1.1.1.2
+  have hvk := (List.all_eq_true.1 hvoc) _ (lookup_mem (show L.rules.lookup ⟨.quant q, ng, d⟩ = some r from hr))
+  simp only at hvk
+  have hgs : s.ground L = true := by
+    unfold Branch.groundB at hg
+    have := (List.all_eq_true.1 hg) _ hn
+    simp only [Bool.and_eq_true] at this
+    exact this.1.1
+  have hsw := decomp_eq hdec
+  cases whole <;> simp [Shape.of] at hq
+  cases ng <;> simp at hsw <;> subst hsw <;> simp [Sent.ground, Sent.neg, Op1.isModal, hvk] at hgs
+
+/-- Hintikka lemma, first-order vocabulary (needs weights for every row of the table) -/
+theorem hintikka_fo (μ : Sent → Option Bool → Nat) (hμ : MeasureOKOn L μ (fun _ => True))
+    (hcore : L.hintikkaCoreB = true) (hT : V.T ∈ L.T.vals) (hF : V.F ∈ L.T.vals)
+    (hs : L.unsaturated b = []) (hg : b.foB L = true) :
+    (struct L b).Interp L ∧ ∀ n ∈ b.nodes, satNode L (struct L b) env id n :=
+  hintikka_gen μ _ hμ (fun _ _ _ _ _ _ _ _ => trivial) hcore hT hF hs hg
 
 
 end Canon
